@@ -5,7 +5,9 @@ T1  tree level, model (driver op `convertx.tree`) AND implementation (serializer
 T2  output level, implementation and model: the output for a `<`-free source is read by the strict reader
     (harness/htmlread.py) and every element / attribute name is in the vocabulary of the enabled extensions.
 
-usage: c05x.py [seed] [n] [attr_list: 0|1]
+`run(driver, rng, n)` is the entry point of the correspondence framework (attr_list drawn from `rng` per document).
+
+usage: c05x.py [seed] [n] [attr_list: 0|1|mix]
 """
 from __future__ import annotations
 import os, re, sys, json, random, time
@@ -72,11 +74,55 @@ def forest_vocab(forest, fl, attr_list=False, top=True):
     return bad
 
 
-def run(driver, rng, n, attr_list):
+# `AttrList.nameRanges` (Model/Ext/AttrList.lean): the characters `sanitize_name` keeps = the key grammar of attr_list
+NAME_RANGES = [(0x41, 0x5a), (0x5f, 0x5f), (0x61, 0x7a), (0xc0, 0xd6), (0xd8, 0xf6), (0xf8, 0x2ff), (0x370, 0x37d),
+               (0x37f, 0x1fff), (0x200c, 0x200d), (0x2070, 0x218f), (0x2c00, 0x2fef), (0x3001, 0xd7ff), (0xf900, 0xfdcf),
+               (0xfdf0, 0xfffd), (0x3a, 0x3a), (0x2d, 0x2d), (0x2e, 0x2e), (0x30, 0x39), (0xb7, 0xb7), (0x300, 0x36f),
+               (0x203f, 0x2040)]
+ATTR_NAME_WHY = re.compile(r'malformed attribute name in <|attribute .* without quoted value in <', re.S)
+MAX_DIS = 50
+
+
+def al_key(k):
+    """`k.all AttrList.nameChar` (`C05X_attr_list_keys`)"""
+    return all(any(lo <= ord(c) <= hi for lo, hi in NAME_RANGES) for c in k)
+
+
+def split_documented(bad, attr_list):
+    """With attr_list enabled an attribute name is any word of its key grammar (`C05X_attr_list_keys`), which need not
+    be a name of the strict reader (`C05X_attr_list_not_names`: documented behaviour).  Returns (violations, documented):
+    an `attrname` entry whose key is in the key grammar is documented when attr_list is on, everything else a violation."""
+    if not attr_list: return bad, []
+    doc = [x for x in bad if x[1] == 'attrname' and al_key(x[2])]
+    return [x for x in bad if not (x[1] == 'attrname' and al_key(x[2]))], doc
+
+
+def tags_of(t, out):
+    out.add(t.tag)
+    for c in t.children: tags_of(c, out)
+    return out
+
+
+def clip(x, k=600):
+    x = x if isinstance(x, str) else json.dumps(x, ensure_ascii=False, default=repr)
+    return x if len(x) <= k else x[:k] + '…(%d chars)' % len(x)
+
+
+def run(driver, rng, n, attr_list=None, full=False):
+    """correspondence entry point (`framework.pmap('corr.c05x', 'run', seed, n, shards)`): `n` sources without `<`
+    (the families of corr/pipelinex.py first, then its generator), flag sets / tab_length / output format drawn from `rng`;
+    `attr_list` None: drawn from `rng` per document (True / False: every document with / without it, as the script did).
+    Checked per document: T1 on the model tree and on the implementation tree, T2 on the implementation output, and
+    that STX amp ETX never reaches AndSubstitutePostprocessor.  With attr_list on, the two documented consequences of
+    its key grammar (`split_documented`; the strict reader refusing the output for an ATTRIBUTE NAME) are counted in
+    dist['attr_list:…'] and are no disagreements; everything else the script reported is one.
+    `distinct` = distinct (source, tab, format, flags) whose implementation tree has an element other than div / p."""
     supported = [e for e in PX.SUPPORTED if e != 'attr_list']
     docs = []
     fam = [(f, set(supported)) for f in PX.FAMILIES]
-    while len(docs) < n:
+    attempts = 0
+    while len(docs) < n and attempts < 3 * n + 200:
+        attempts += 1
         if fam: s, names = fam.pop()
         else:
             s = PX.gen(rng)
@@ -84,24 +130,29 @@ def run(driver, rng, n, attr_list):
             if r < 0.3: names = set(supported)
             elif r < 0.5: names = {rng.choice(supported)}
             else: names = {e for e in supported if rng.random() < 0.5}
-        if attr_list: names = names | {'attr_list'}
+        al = (rng.random() < 0.5) if attr_list is None else bool(attr_list)
+        if al: names = names | {'attr_list'}
         if not proto.lean_ok(s) or 'Σ' in s or '<' in s: continue
         tab = rng.choice([4, 4, 4, 4, 2, 8]); fmt = rng.choice(['xhtml', 'xhtml', 'html'])
-        docs.append((s, tab, fmt, PX.flags_of(names)))
-    trees = driver.ask_many([('convertx.tree', fl, str(t), proto.enc_str(s)) for s, t, f, fl in docs])
-    outs = driver.ask_many([('convertx', fl, str(t), f, proto.enc_str(s)) for s, t, f, fl in docs])
+        docs.append((s, tab, fmt, PX.flags_of(names), al))
+    trees = driver.ask_many([('convertx.tree', fl, str(t), proto.enc_str(s)) for s, t, f, fl, _ in docs]) if docs else []
+    outs = driver.ask_many([('convertx', fl, str(t), f, proto.enc_str(s)) for s, t, f, fl, _ in docs]) if docs else []
     dist = {}
     fails = []
+    seen = set()
 
-    def cnt(k): dist[k] = dist.get(k, 0) + 1
+    def cnt(k, by=1): dist[k] = dist.get(k, 0) + by
     mds = {}
-    for (s, tab, fmt, fl), ta, oa in zip(docs, trees, outs):
+    for (s, tab, fmt, fl, al), ta, oa in zip(docs, trees, outs):
+        inp = {'src': s, 'tab': tab, 'fmt': fmt, 'flags': fl, 'attr_list': al}
+        cnt('attr_list:on' if al else 'attr_list:off')
         # --- model tree
         if ta.startswith('ok '):
             tr = proto.dec_tree(ta[3:].split('|')[0])
-            bad = wf_tree(tr, fl, attr_list=attr_list)
+            bad, documented = split_documented(wf_tree(tr, fl, attr_list=al), al)
             cnt('model-tree-ok' if not bad else 'model-tree-BAD')
-            if bad: fails.append(('model-tree', s, fl, bad[:3]))
+            if documented: cnt('attr_list:model-tree-key-not-a-name')
+            if bad: fails.append(('model-tree', inp, 'WFTree, vocabulary, attribute-less root div', bad[:3]))
         else: cnt('model-tree-' + ta.split(' ')[0])
         # --- implementation tree and output
         key = (tab, fmt, fl)
@@ -120,33 +171,48 @@ def run(driver, rng, n, attr_list):
         except Exception as e:
             cnt('impl-exc-' + type(e).__name__); mds.pop(key, None); continue
         cnt('impl-hamp-ok' if not any(md._amp) else 'impl-hamp-VIOLATED')
-        if any(md._amp): fails.append(('impl-hamp', s, fl, 'STX amp ETX reaches AndSubstitutePostprocessor'))
+        if any(md._amp): fails.append(('impl-hamp', inp, 'no STX amp ETX in the text given to AndSubstitutePostprocessor', 'STX amp ETX reaches AndSubstitutePostprocessor'))
         if md._cap:
-            bad = wf_tree(md._cap[-1], fl, attr_list=attr_list)
+            bad, documented = split_documented(wf_tree(md._cap[-1], fl, attr_list=al), al)
             cnt('impl-tree-ok' if not bad else 'impl-tree-BAD')
-            if bad: fails.append(('impl-tree', s, fl, bad[:3]))
+            if documented: cnt('attr_list:impl-tree-key-not-a-name')
+            if bad: fails.append(('impl-tree', inp, 'WFTree, vocabulary, attribute-less root div', bad[:3]))
+            if tags_of(md._cap[-1], set()) - {'div', 'p'}: seen.add((s, tab, fmt, fl))
         # --- output level
         try:
             forest = htmlread.forest(real, fmt)
-            bad = forest_vocab(forest, fl, attr_list)
+            bad = forest_vocab(forest, fl, al)
             cnt('impl-out-ok' if not bad else 'impl-out-VOCAB')
-            if bad: fails.append(('impl-out-vocab', s, fl, bad[:3], real[:200]))
+            if bad: fails.append(('impl-out-vocab', inp, 'every element / attribute name of the output in the vocabulary', bad[:3], real))
         except htmlread.NotWellFormed as e:
-            cnt('impl-out-NOTWF'); fails.append(('impl-out-notwf', s, fl, str(e), real[:300]))
+            if al and ATTR_NAME_WHY.match(e.why):
+                cnt('attr_list:impl-out-not-read(attribute name)')
+            else:
+                cnt('impl-out-NOTWF'); fails.append(('impl-out-notwf', inp, 'the strict reader reads the output', str(e), real))
         if oa.startswith('ok '):
             mo = proto.dec_str(oa[3:])
             cnt('model=impl' if mo == real else 'model!=impl')
         else: cnt('model-out-' + oa.split(' ')[0])
-    return dist, fails
+    cnt('disagreements_total', len(fails))
+    fails.sort(key=lambda f: (len(f[1]['src']), f[1]['src'], f[0]))
+    res = {'cases': len(docs), 'distinct': len(seen),
+           'disagreements': [{'op': f[0], 'input': dict(f[1], src=clip(f[1]['src'], 1500)), 'expected': f[2], 'got': clip(f[3], 400),
+                              **({'output': clip(f[4], 400)} if len(f) > 4 else {})} for f in fails[:MAX_DIS]],
+           'samples': [{'src': clip(d[0], 300), 'tab': d[1], 'fmt': d[2], 'flags': d[3], 'model-tree': t[:120]}
+                       for d, t in list(zip(docs, trees))[len(PX.FAMILIES):len(PX.FAMILIES) + 3]],
+           'dist': dict(sorted(dist.items()))}
+    if full: res['fails'] = fails
+    return res
 
 
 if __name__ == '__main__':
     seed = int(sys.argv[1]) if len(sys.argv) > 1 else 1
     n = int(sys.argv[2]) if len(sys.argv) > 2 else 2000
-    al = (sys.argv[3] == '1') if len(sys.argv) > 3 else False
+    al = (None if sys.argv[3] == 'mix' else sys.argv[3] == '1') if len(sys.argv) > 3 else False
     d = proto.Driver(None)
     t0 = time.time()
-    dist, fails = run(d, random.Random(seed), n, al)
+    res = run(d, random.Random(seed), n, al, full=True)
+    dist, fails = res['dist'], [(f[0], f[1]['src'], f[1]['flags']) + tuple(f[3:]) for f in res['fails']]
     d.close()
     print(json.dumps({'dist': dist, 'seconds': round(time.time() - t0, 1)}, ensure_ascii=False))
     seen = set()
